@@ -27,6 +27,8 @@ type sched struct {
 	stalled  int
 	killed   bool
 	pending  any
+
+	preemptions int
 }
 
 var SC *sched
@@ -127,8 +129,22 @@ func (s *sched) pickGroup(include *fgroup) *fiber {
 	}
 	d := 0
 	if len(cands) > 1 {
-		d = X.decide(len(cands), func(int) string { return "" })
-		X.sched = append(X.sched, cands[d].id)
+		// preemption bounding: once the budget of preemptive switches (leaving a
+		// group that could continue) is used up, the running group continues
+		bound, bounded := Params["preempt"]
+		if include != nil && bounded && s.preemptions >= bound {
+			for i, c := range cands {
+				if c == include {
+					d = i
+				}
+			}
+		} else {
+			d = X.decide(len(cands), func(int) string { return "" })
+			X.sched = append(X.sched, cands[d].id)
+			if include != nil && cands[d] != include {
+				s.preemptions++
+			}
+		}
 	}
 	g := cands[d]
 	if g == include {
